@@ -599,6 +599,13 @@ pub struct ConstructorInfo {
     pub payload_type: Option<TypeNodeId>,
 }
 
+/// Entries of a symbol-keyed hash map in a deterministic, history-independent order (by name).
+fn sorted_by_name<V>(map: &HashMap<Symbol, V>) -> Vec<(&Symbol, &V)> {
+    let mut entries: Vec<_> = map.iter().collect();
+    entries.sort_by(|a, b| a.0.as_str().cmp(b.0.as_str()));
+    entries
+}
+
 /// Map from constructor name to its info
 pub type ConstructorEnv = HashMap<Symbol, ConstructorInfo>;
 
@@ -693,10 +700,12 @@ impl InferContext {
         s.len() == 1 && s.as_bytes()[0].is_ascii_lowercase()
     }
 
-    fn collect_explicit_type_params_in_type(ty: TypeNodeId, out: &mut BTreeMap<Symbol, Location>) {
+    fn collect_explicit_type_params_in_type(ty: TypeNodeId, out: &mut Vec<(Symbol, Location)>) {
         match ty.to_type() {
             Type::TypeAlias(name) if Self::is_explicit_type_param_name(name) => {
-                out.entry(name).or_insert_with(|| ty.to_loc());
+                if !out.iter().any(|(n, _)| *n == name) {
+                    out.push((name, ty.to_loc()));
+                }
             }
             Type::Array(elem) | Type::Ref(elem) | Type::Code(elem) | Type::Boxed(elem) => {
                 Self::collect_explicit_type_params_in_type(elem, out);
@@ -720,7 +729,7 @@ impl InferContext {
         types: &[TypeNodeId],
         f: impl FnOnce(&mut Self) -> T,
     ) -> T {
-        let mut collected = BTreeMap::<Symbol, Location>::new();
+        let mut collected = Vec::<(Symbol, Location)>::new();
         types
             .iter()
             .for_each(|ty| Self::collect_explicit_type_params_in_type(*ty, &mut collected));
@@ -757,7 +766,7 @@ impl InferContext {
         let mut sum_types: std::collections::HashMap<Symbol, TypeNodeId> =
             std::collections::HashMap::new();
 
-        for (type_name, decl_info) in type_declarations {
+        for (type_name, decl_info) in sorted_by_name(type_declarations) {
             let variants = &decl_info.variants;
             let variant_data: Vec<(Symbol, Option<TypeNodeId>)> =
                 variants.iter().map(|v| (v.name, v.payload)).collect();
@@ -775,7 +784,7 @@ impl InferContext {
         }
 
         // Second pass: For recursive types, wrap self-references in Boxed
-        for (type_name, decl_info) in type_declarations {
+        for (type_name, decl_info) in sorted_by_name(type_declarations) {
             if !decl_info.is_recursive {
                 continue;
             }
@@ -819,7 +828,7 @@ impl InferContext {
         }
 
         // Register constructors for non-recursive types
-        for (type_name, decl_info) in type_declarations {
+        for (type_name, decl_info) in sorted_by_name(type_declarations) {
             if decl_info.is_recursive {
                 continue;
             }
@@ -895,7 +904,7 @@ impl InferContext {
         &mut self,
         type_declarations: &crate::ast::program::TypeDeclarationMap,
     ) {
-        for (type_name, decl_info) in type_declarations {
+        for (type_name, decl_info) in sorted_by_name(type_declarations) {
             // Skip the recursion check for types declared with `type rec`
             if decl_info.is_recursive {
                 continue;
@@ -963,7 +972,7 @@ impl InferContext {
     /// Register type aliases from ModuleInfo into the type environment
     fn register_type_aliases(&mut self, type_aliases: &crate::ast::program::TypeAliasMap) {
         // Store type aliases for resolution during unification
-        for (alias_name, target_type) in type_aliases {
+        for (alias_name, target_type) in sorted_by_name(type_aliases) {
             self.type_aliases.insert(*alias_name, *target_type);
             // Also add to environment for name resolution
             self.env
@@ -976,8 +985,8 @@ impl InferContext {
 
     /// Check for circular references in type aliases
     fn check_type_alias_cycles(&mut self, type_aliases: &TypeAliasMap) {
-        let errors: Vec<_> = type_aliases
-            .iter()
+        let errors: Vec<_> = sorted_by_name(type_aliases)
+            .into_iter()
             .filter_map(|(alias_name, target_type)| {
                 Self::detect_type_alias_cycle(*alias_name, type_aliases).map(|cycle| {
                     Error::RecursiveTypeAlias {
